@@ -554,6 +554,50 @@ Section Eigh.
   Qed.
 End Eigh.
 
+
+(* every admissible multiplier gives a minimiser over the ball of its own radius: what a secular loop that stops early (iteration cap,
+   or a Newton correction below the resolution of lam -- the patch proposed for finding F2c) returns is still optimal for the radius it reached *)
+Lemma shifted_step_optimal k (A : rvec -> rvec) (sig : rvec) (V : list rvec) (b : rvec) :
+  len (S k) sig -> rows (S k) V -> length V = S k -> len (S k) b ->
+  (forall y, len (S k) y -> rmatvec (rtranspose (S k) V) (rmatvec V y) = y) ->
+  (forall x, len (S k) x -> rmatvec V (rmatvec (rtranspose (S k) V) x) = x) ->
+  (forall x, len (S k) x -> A x = rmatvec V (rmul sig (rmatvec (rtranspose (S k) V) x))) ->
+  (forall x, In x sig -> hd 0 sig <= x) ->
+  forall lam, 0 <= lam -> 0 < hd 0 sig + lam ->
+  let p := rneg (rmatvec V (rdiv (rmatvec (rtranspose (S k) V) b) (rshift lam sig))) in
+  len (S k) p /\ forall s, len (S k) s -> s ⋅ s <= p ⋅ p -> energyR A b p <= energyR A b s.
+Proof.
+  intros Hsig Hrows HV Hb O1 O2 Dec Asc lam Hlam Hpos. cbv zeta.
+  fold (pof k sig V b lam).
+  split; [apply (pof_len k sig V b HV)|].
+  intros s Hs Hball.
+  pose proof (rdot_self_nonneg (pof k sig V b lam)) as Hnn. pose proof (sqrt_sqrt _ Hnn) as Hsq.
+  apply (pof_optimal k A sig V b Hsig Hrows HV Hb O1 O2 Dec Asc lam (sqrt (pof k sig V b lam ⋅ pof k sig V b lam))); try assumption; try lra.
+  rewrite Hsq. ring.
+Qed.
+
+(* the case excluded by the guard A <> 0 (finding F2b): for A = 0 the model is s.b and its minimiser over the ball is -Delta*b/|b|
+   (what the patch proposed for F2b returns) *)
+Lemma linear_model_minimiser n (b s : rvec) Delta : len n b -> len n s -> 0 < Delta -> 0 < b ⋅ b -> s ⋅ s <= Delta * Delta ->
+  let p := rscale (- Delta / sqrt (b ⋅ b)) b in
+  p ⋅ p = Delta * Delta /\ energyR (fun v => rzero v) b p <= energyR (fun v => rzero v) b s.
+Proof.
+  intros Hb Hs HD Hbb Hss. cbv zeta. unfold energyR. rewrite !rdot_rzero_r.
+  rewrite !rdot_rscale_l, rdot_rscale_r.
+  pose proof (sqrt_sqrt (b ⋅ b) ltac:(lra)) as Hq. pose proof (sqrt_lt_R0 _ Hbb) as Hq0.
+  set (r := sqrt (b ⋅ b)) in *.
+  split.
+  - rewrite <- Hq. field. lra.
+  - assert (E : - Delta / r * (b ⋅ b) = - (Delta * r)) by (rewrite <- Hq; field; lra).
+    replace (/ 2 * 0 + - Delta / r * (b ⋅ b)) with (- (Delta * r)) by lra.
+    pose proof (rdot_cauchy_schwarz n s b Hs Hb) as Hcs.
+    assert (H2 : (s ⋅ b) * (s ⋅ b) <= (Delta * r) * (Delta * r)).
+    { replace (Delta * r * (Delta * r)) with (Delta * Delta * (r * r)) by ring. rewrite Hq.
+      pose proof (rdot_self_nonneg s). nra. }
+    assert (0 < Delta * r) by (apply Rmult_lt_0_compat; assumption).
+    destruct (Rle_dec 0 (s ⋅ b)); nra.
+Qed.
+
 (* ------------------------------------------------------------------ the hypotheses are satisfiable and the secular branch is reached:
    A = (2), b = (4), Delta = 1: one Newton step (exact in one dimension) gives lam = 2, p = (-1) *)
 Lemma len1_inv (v : rvec) : len 1 v -> exists a, v = [a].
